@@ -1,3 +1,311 @@
-(* C33 proofs (in progress) *)
-From Coq Require Import List NArith Bool.
+(* C33 -- proofs about Model/Trusted.v (PROXY protocol headers only from trusted upstreams). *)
+From Coq Require Import List NArith ZArith Bool Lia ZifyN ZifyBool ZifyNat String.
 From Verif Require Import Base.Hex Base.Ip Model.Trusted.
+Import ListNotations.
+Open Scope N_scope.
+Open Scope bool_scope.
+
+(* ---------- trusted lists produced by the parser are made of valid, well-formed prefixes ---------- *)
+
+Definition good_prefix (p : prefix) : Prop := prefix_valid p = true /\ wf_addr (paddr p).
+Definition good_trusted (t : trusted) : Prop := Forall good_prefix t.
+
+Lemma is4in6_false_unmap a : is4in6 a = false -> unmap a = a.
+Proof. unfold unmap. intros ->. reflexivity. Qed.
+
+Lemma parse_network_good s p : parse_network s = Some p -> good_prefix p.
+Proof.
+  unfold parse_network. destruct (mem 47 s).
+  - destruct (parse_prefix s) as [q|] eqn:Eq; [|discriminate].
+    destruct (is4in6 (paddr q)) eqn:E4; [discriminate|]. intros H. injection H as <-.
+    apply parse_prefix_valid in Eq. destruct Eq as [Hv Hw].
+    rewrite (is4in6_false_unmap _ E4).
+    assert (Hv' : prefix_valid (mkPrefix (strip_zone (paddr q)) (plen q)) = true).
+    { unfold prefix_valid in *. cbn [paddr plen]. unfold strip_zone. rewrite with_zone_fam. exact Hv. }
+    split.
+    + rewrite masked_valid. exact Hv'.
+    + apply masked_wf; [exact Hv'|]. cbn [paddr]. apply with_zone_wf. exact Hw.
+  - destruct (parse_addr s) as [a|] eqn:Ea; [|discriminate].
+    destruct (is4in6 a) eqn:E4; [discriminate|]. intros H. injection H as <-.
+    rewrite (is4in6_false_unmap _ E4). split.
+    + unfold prefix_valid. cbn [paddr plen]. unfold strip_zone. rewrite with_zone_fam. apply N.leb_refl.
+    + cbn [paddr]. apply with_zone_wf. eapply parse_addr_wf; exact Ea.
+Qed.
+
+Lemma parse_trusted_good l : forall t, parse_trusted l = Some t -> good_trusted t.
+Proof.
+  induction l as [|s r IH]; intros t H; cbn [parse_trusted] in H.
+  - injection H as <-. constructor.
+  - destruct (parse_network (trim_space s)) as [p|] eqn:Ep; [|discriminate].
+    destruct (parse_trusted r) as [t'|]; [|discriminate]. injection H as <-.
+    constructor; [eapply parse_network_good; exact Ep|apply IH; reflexivity].
+Qed.
+
+(* ---------- contains_iff_prefix_bits ---------- *)
+
+Lemma norm_peer_ip_wf a : wf_addr a -> wf_addr (norm_peer_ip a) /\ zone (norm_peer_ip a) = [].
+Proof.
+  intros H. unfold norm_peer_ip. pose proof (unmap_wf _ H) as Hu. split.
+  - apply with_zone_wf. exact Hu.
+  - apply strip_zone_zone. exact Hu.
+Qed.
+
+(* a peer is trusted iff its host parses as an IP whose normal form (unmapped, zone dropped)
+   has the family of some trusted prefix and the same leading plen bits *)
+Theorem trusted_iff_prefix_bits t host :
+  good_trusted t ->
+  (contains_str t host = true <->
+   exists a p, parse_addr host = Some a /\ In p t /\
+     fam (norm_peer_ip a) = fam (paddr p) /\
+     forall i, bit_len (fam (paddr p)) - plen p <= i < bit_len (fam (paddr p)) ->
+               N.testbit (abits (norm_peer_ip a)) i = N.testbit (abits (paddr p)) i).
+Proof.
+  intros Hg. unfold contains_str. destruct (parse_addr host) as [a|] eqn:Ea.
+  - unfold contains_addr. rewrite existsb_exists.
+    destruct (norm_peer_ip_wf a (parse_addr_wf _ _ Ea)) as [Hw Hz]. split.
+    + intros [p [Hin Hc]]. unfold good_trusted in Hg. rewrite Forall_forall in Hg.
+      destruct (Hg p Hin) as [Hv Hwp].
+      apply (contains_iff_bits p _ Hv Hw Hwp) in Hc. destruct Hc as [_ [Hf Hb]].
+      exists a, p. repeat split; try assumption. rewrite <- Hf. exact Hb.
+    + intros [a' [p [Ha' [Hin [Hf Hb]]]]]. injection Ha' as <-. exists p. split; [exact Hin|].
+      unfold good_trusted in Hg. rewrite Forall_forall in Hg. destruct (Hg p Hin) as [Hv Hwp].
+      apply (contains_iff_bits p _ Hv Hw Hwp). repeat split; try assumption. rewrite Hf. exact Hb.
+  - split; [discriminate|]. intros [a [p [H _]]]. discriminate.
+Qed.
+
+(* ---------- mapped_equivalence ---------- *)
+
+Lemma v4_addr_shape a : wf_addr a -> fam a = V4 -> a = mkAddr V4 (abits a) [] /\ N.shiftr (abits a) 32 = 0xffff.
+Proof.
+  intros [_ Hf] E. destruct (Hf E) as [Hs Hz]. destruct a as [f b z]. cbn in *. subst. split; reflexivity || exact Hs.
+Qed.
+
+Lemma norm_mapped a z : wf_addr a -> fam a = V4 ->
+  norm_peer_ip (mkAddr V6 (abits a) z) = norm_peer_ip a.
+Proof.
+  intros Hw Hf. destruct (v4_addr_shape a Hw Hf) as [Ea Hs]. unfold norm_peer_ip.
+  rewrite (unmap_mapped _ z Hs). rewrite (unmap_v4 a Hf). rewrite <- Ea. reflexivity.
+Qed.
+
+Lemma v4_text_no_percent d a : parse_addr d = Some a -> fam a = V4 -> mem 37 d = false.
+Proof.
+  intros H Hf. unfold parse_addr in H. apply parse_addr_scan_cases in H.
+  destruct H as [H|H]; [|apply parse_ipv6_fam in H; congruence].
+  apply parse_ipv4_inv in H. destruct H as [f [Hp _]].
+  apply (mem_digits_dots 37 d (v4_loop_chars _ _ _ _ _ _ Hp)); [reflexivity|discriminate].
+Qed.
+
+(* the text ::ffff:a.b.c.d (with or without a zone) is trusted exactly when a.b.c.d is *)
+Theorem mapped_equivalence t d a :
+  parse_addr d = Some a -> fam a = V4 ->
+  contains_str t (mapped_prefix ++ d) = contains_str t d /\
+  forall z, z <> [] -> contains_str t ((mapped_prefix ++ d) ++ 37 :: z) = contains_str t d.
+Proof.
+  intros H Hf. pose proof (parse_addr_wf _ _ H) as Hw.
+  pose proof (parse_addr_mapped d a H Hf) as Hm. split.
+  - unfold contains_str. rewrite Hm, H. unfold contains_addr. rewrite (norm_mapped a [] Hw Hf). reflexivity.
+  - intros z Hz.
+    assert (Hp : mem 37 (mapped_prefix ++ d) = false).
+    { unfold mapped_prefix. cbn [app mem]. rewrite (v4_text_no_percent d a H Hf). reflexivity. }
+    unfold contains_str. rewrite (parse_addr_zone _ z _ Hp Hz Hm eq_refl), H.
+    unfold contains_addr, with_zone. cbn [fam abits]. rewrite (norm_mapped a z Hw Hf). reflexivity.
+Qed.
+
+(* ---------- zone_ignored ---------- *)
+
+Lemma norm_with_zone z a : fam a = V6 -> norm_peer_ip (with_zone z a) = norm_peer_ip a.
+Proof.
+  intros Hf. unfold norm_peer_ip, with_zone. rewrite Hf. unfold unmap, is4in6. cbn [fam abits]. rewrite Hf.
+  destruct (N.shiftr (abits a) 32 =? 65535); [reflexivity|].
+  unfold strip_zone, with_zone. cbn [fam abits]. rewrite Hf. reflexivity.
+Qed.
+
+Theorem zone_ignored t s z a :
+  mem 37 s = false -> z <> [] -> parse_addr s = Some a -> fam a = V6 ->
+  contains_str t (s ++ 37 :: z) = contains_str t s.
+Proof.
+  intros Hm Hz H Hf. unfold contains_str. rewrite (parse_addr_zone s z a Hm Hz H Hf), H.
+  unfold contains_addr. rewrite (norm_with_zone z a Hf). reflexivity.
+Qed.
+
+(* ---------- non_ip_never_trusted ---------- *)
+
+Lemma no_dot_no_colon_scan h : forall w, mem 46 h = false -> mem 58 h = false -> parse_addr_scan h w = None.
+Proof.
+  induction h as [|c r IH]; intros w H1 H2; [reflexivity|].
+  cbn [mem] in H1, H2. apply orb_false_iff in H1, H2. destruct H1 as [H1 H1'], H2 as [H2 H2'].
+  cbn [parse_addr_scan]. rewrite H1, H2. destruct (c =? 37); [reflexivity|]. apply IH; assumption.
+Qed.
+
+Lemma no_dot_no_colon_not_ip h : mem 46 h = false -> mem 58 h = false -> parse_addr h = None.
+Proof. intros H1 H2. apply no_dot_no_colon_scan; assumption. Qed.
+
+Theorem non_ip_never_trusted t :
+  policy_of t None = REJECT /\
+  (forall s, parse_addr (host_of s) = None -> policy_of t (Some s) = REJECT) /\
+  (forall s, mem 46 (host_of s) = false -> mem 58 (host_of s) = false -> policy_of t (Some s) = REJECT).
+Proof.
+  split; [reflexivity|]. split.
+  - intros s H. unfold policy_of, contains_peer, contains_str. rewrite H. reflexivity.
+  - intros s H1 H2. unfold policy_of, contains_peer, contains_str.
+    rewrite (no_dot_no_colon_not_ip _ H1 H2). reflexivity.
+Qed.
+
+(* ---------- the effect table ---------- *)
+
+Theorem header_only_from_trusted t peer fb :
+  effect (policy_of t peer) fb = spec_effect (spec_trusted_peer t peer) fb /\
+  (fst (effect (policy_of t peer) fb) = RemoteHeaderSource -> contains_peer t peer = true /\ fb = HdrProxy) /\
+  (contains_peer t peer = false -> fb <> NoHdr -> effect (policy_of t peer) fb = (RemotePeer, ReadFailsSuperfluous)) /\
+  (fb = NoHdr -> effect (policy_of t peer) fb = (RemotePeer, ReadPayload)) /\
+  (contains_peer t peer = true -> fb = HdrProxy -> effect (policy_of t peer) fb = (RemoteHeaderSource, ReadPayload)).
+Proof.
+  unfold policy_of, spec_trusted_peer. destruct (contains_peer t peer); destruct fb; cbn;
+    repeat split; intros; try congruence; try discriminate.
+Qed.
+
+(* ---------- parse_accepts_iff ---------- *)
+
+Theorem parse_network_accepts_iff s :
+  (exists p, parse_network s = Some p) <->
+  (mem 47 s = false /\ exists a, parse_addr s = Some a /\ is4in6 a = false) \/
+  (mem 47 s = true /\ exists q, parse_prefix s = Some q /\ is4in6 (paddr q) = false).
+Proof.
+  unfold parse_network. destruct (mem 47 s).
+  - destruct (parse_prefix s) as [q|].
+    + destruct (is4in6 (paddr q)) eqn:E.
+      * split; [intros [p H]; discriminate|]. intros [[H _]|[_ [q' [H1 H2]]]]; [discriminate|]. congruence.
+      * split; [|eexists; reflexivity]. intros _. right. split; [reflexivity|]. exists q. split; [reflexivity|exact E].
+    + split; [intros [p H]; discriminate|]. intros [[H _]|[_ [q' [H1 _]]]]; discriminate.
+  - destruct (parse_addr s) as [a|].
+    + destruct (is4in6 a) eqn:E.
+      * split; [intros [p H]; discriminate|]. intros [[_ [a' [H1 H2]]]|[H _]]; [congruence|discriminate].
+      * split; [|eexists; reflexivity]. intros _. left. split; [reflexivity|]. exists a. split; [reflexivity|exact E].
+    + split; [intros [p H]; discriminate|]. intros [[_ [a' [H1 _]]]|[H _]]; discriminate.
+Qed.
+
+(* masking never turns a non-mapped IPv6 address into an IPv4-mapped one *)
+Lemma masked_not_mapped q : prefix_valid q = true -> wf_addr (paddr q) ->
+  is4in6 (paddr q) = false -> is4in6 (paddr (masked q)) = false.
+Proof.
+  intros Hv [Hb _] E. unfold is4in6 in *. rewrite masked_fam. destruct (fam (paddr q)) eqn:Ef; [reflexivity|].
+  apply N.leb_le in Hv. rewrite Ef in Hv. cbn [bit_len] in Hv.
+  apply N.eqb_neq. apply N.eqb_neq in E. intros Hc. apply E.
+  assert (Hbit : forall j, N.testbit (abits (paddr (masked q))) (j + 32) = N.testbit 65535 j).
+  { intros j. rewrite <- Hc, N.shiftr_spec by lia. reflexivity. }
+  assert (Hplen : 128 - plen q <= 32).
+  { specialize (Hbit 0). rewrite masked_bits_in in Hbit by (rewrite Ef; exact Hv).
+    rewrite Ef in Hbit. cbn [bit_len] in Hbit. change (N.testbit 65535 0) with true in Hbit.
+    apply andb_true_iff in Hbit. destruct Hbit as [Hbit _]. apply andb_true_iff in Hbit. destruct Hbit as [_ Hbit].
+    apply N.leb_le in Hbit. exact Hbit. }
+  apply N.bits_inj. intros j. rewrite N.shiftr_spec by lia. rewrite <- Hbit.
+  rewrite masked_bits_in by (rewrite Ef; exact Hv). rewrite Ef. cbn [bit_len].
+  replace (128 - plen q <=? j + 32) with true by (symmetry; apply N.leb_le; lia). rewrite andb_true_r.
+  destruct (N.ltb_spec (j + 32) 128) as [Hlt|Hge]; [rewrite andb_true_r; reflexivity|].
+  rewrite andb_false_r. apply (bits_above _ 128); assumption.
+Qed.
+
+Lemma strip_zone_id a : zone a = [] -> strip_zone a = a.
+Proof. destruct a as [f b z]. cbn. intros ->. unfold strip_zone, with_zone. cbn. destruct f; reflexivity. Qed.
+
+(* what an accepted plain IP entry becomes: the full-length prefix of that address, zone dropped *)
+Theorem parse_network_ip_result s p : mem 47 s = false -> parse_network s = Some p ->
+  exists a, parse_addr s = Some a /\ is4in6 a = false /\
+            p = mkPrefix (strip_zone a) (bit_len (fam a)) /\ zone (paddr p) = [] /\
+            prefix_valid p = true /\ wf_addr (paddr p).
+Proof.
+  intros Hm H. destruct (parse_network_good s p H) as [Hv Hw]. revert H. unfold parse_network. rewrite Hm.
+  destruct (parse_addr s) as [a|] eqn:Ea; [|discriminate].
+  destruct (is4in6 a) eqn:E4; [discriminate|]. rewrite (is4in6_false_unmap _ E4). intros H. injection H as <-.
+  exists a. split; [reflexivity|]. split; [exact E4|]. split; [reflexivity|].
+  split; [|split; assumption]. cbn [paddr]. apply strip_zone_zone. eapply parse_addr_wf; exact Ea.
+Qed.
+
+(* what an accepted CIDR entry becomes: ParsePrefix's result, masked; not IPv4-mapped; host bits zero;
+   it contains exactly what the unmasked prefix contains *)
+Theorem parse_network_cidr_result s p : mem 47 s = true -> parse_network s = Some p ->
+  exists q, parse_prefix s = Some q /\ is4in6 (paddr q) = false /\ p = masked q /\
+            prefix_valid p = true /\ wf_addr (paddr p) /\ zone (paddr p) = [] /\ is4in6 (paddr p) = false /\
+            (forall i, i < bit_len (fam (paddr p)) - plen p -> N.testbit (abits (paddr p)) i = false) /\
+            (forall a, contains p a = contains q a).
+Proof.
+  intros Hm H. destruct (parse_network_good s p H) as [Hv Hw]. revert H. unfold parse_network. rewrite Hm.
+  destruct (parse_prefix s) as [q|] eqn:Eq; [|discriminate].
+  destruct (is4in6 (paddr q)) eqn:E4; [discriminate|]. rewrite (is4in6_false_unmap _ E4).
+  destruct (parse_prefix_inv _ _ Eq) as [l [r [_ [_ [Hz [_ Hle]]]]]].
+  rewrite (strip_zone_id _ Hz). destruct q as [qa ql]. cbn [paddr plen] in *. intros H. injection H as <-.
+  destruct (parse_prefix_valid _ _ Eq) as [Hqv Hqw].
+  exists (mkPrefix qa ql). split; [reflexivity|]. split; [exact E4|]. split; [reflexivity|].
+  split; [exact Hv|]. split; [exact Hw|]. split; [reflexivity|].
+  split; [apply masked_not_mapped; assumption|].
+  split; [intros i Hi; apply masked_low_bits_zero; [exact Hqv|exact Hi]|].
+  intros a. apply contains_masked. exact Hqv.
+Qed.
+
+(* the list is accepted iff every entry, trimmed, is accepted *)
+Theorem parse_trusted_accepts_iff l :
+  (exists t, parse_trusted l = Some t) <-> Forall (fun s => exists p, parse_network (trim_space s) = Some p) l.
+Proof.
+  induction l as [|s r IH]; cbn [parse_trusted].
+  - split; [constructor|]. intros _. eexists; reflexivity.
+  - destruct (parse_network (trim_space s)) as [p|] eqn:Ep.
+    + destruct (parse_trusted r) as [t|].
+      * split; [|intros _; eexists; reflexivity]. intros _. constructor; [exists p; exact Ep|]. apply IH. eexists; reflexivity.
+      * split; [intros [t H]; discriminate|]. intros H. inversion H as [|? ? _ Hr]; subst.
+        apply IH in Hr. destruct Hr as [t Ht]. discriminate.
+    + split; [intros [t H]; discriminate|]. intros H. inversion H as [|? ? [p Hp] _]; subst. congruence.
+Qed.
+
+(* ---------- trim_space ---------- *)
+
+Definition spaces (l : bytes) : Prop := Forall (fun c => ascii_space c = true) l.
+
+Lemma drop_space_spaces l : forall x, spaces l -> drop_space (l ++ x) = drop_space x.
+Proof. induction l as [|c r IH]; intros x H; [reflexivity|]. inversion H as [|? ? Hc Hr]; subst. cbn [app drop_space]. rewrite Hc. apply IH. exact Hr. Qed.
+
+Lemma spaces_rev l : spaces l -> spaces (rev l).
+Proof. unfold spaces. rewrite !Forall_forall. intros H x Hx. apply H. apply in_rev. exact Hx. Qed.
+
+(* surrounding ASCII white space is removed and nothing else: m is empty or starts and ends with a non-space *)
+Theorem trim_space_spec l m r :
+  spaces l -> spaces r ->
+  (m = [] \/ exists c m' e, (m = c :: m' /\ ascii_space c = false) /\ (exists m'', m = m'' ++ [e] /\ ascii_space e = false)) ->
+  trim_space (l ++ m ++ r) = m.
+Proof.
+  intros Hl Hr Hm. unfold trim_space. rewrite drop_space_spaces by assumption.
+  destruct Hm as [->|[c [m' [e [[-> Hc] [m'' [Em He]]]]]]].
+  - cbn [app]. rewrite <- (app_nil_r r) at 1. rewrite drop_space_spaces by assumption. reflexivity.
+  - cbn [app drop_space]. rewrite Hc. change (c :: m' ++ r) with ((c :: m') ++ r).
+    rewrite rev_app_distr. rewrite drop_space_spaces by (apply spaces_rev; assumption).
+    rewrite Em, rev_app_distr. cbn [rev app drop_space]. rewrite He.
+    change (e :: rev m'') with (rev [e] ++ rev m''). rewrite <- rev_app_distr, rev_involutive. reflexivity.
+Qed.
+
+(* ---------- non-vacuity: the default configuration ---------- *)
+
+Definition defaults : trusted :=
+  match new_proxy_protocol [] with Some t => t | None => [] end.
+
+Example defaults_parse : exists t, new_proxy_protocol [] = Some t /\ List.length t = 8%nat /\ defaults = t.
+Proof. eexists. split; [vm_compute; reflexivity|]. split; reflexivity. Qed.
+
+Example defaults_good : good_trusted defaults.
+Proof. apply (parse_trusted_good default_trusted_entries). vm_compute. reflexivity. Qed.
+
+Example policy_samples :
+  map (fun s => policy_of defaults (Some (tx s)))
+      ["10.1.2.3:25565"; "[::ffff:10.1.2.3]:25565"; "[::ffff:10.1.2.3%eth0]:25565"; "[fe80::1%eth0]:25565";
+       "8.8.8.8:53"; "[::ffff:8.8.8.8]:53"; "[2001:db8::1]:25565"; "/tmp/gate.sock"; "pipe"; "127.0.0.1"; "172.32.0.1:1"; "172.31.255.255:1"]%string
+  = [USE; USE; USE; USE; REJECT; REJECT; REJECT; REJECT; REJECT; USE; REJECT; USE].
+Proof. vm_compute. reflexivity. Qed.
+
+Example mapped_rejected_in_list :
+  parse_trusted [tx "::ffff:10.0.0.1"] = None /\ parse_trusted [tx "::ffff:10.0.0.0/104"] = None /\
+  parse_trusted [tx " 10.0.0.0/8 "; tx "fe80::1%eth0"] <> None.
+Proof. repeat split; vm_compute; congruence. Qed.
+
+Example mapped_premise_met : exists a, parse_addr (tx "10.1.2.3") = Some a /\ fam a = V4.
+Proof. eexists. split; vm_compute; reflexivity. Qed.
+
+Example zone_premise_met : exists a, parse_addr (tx "fe80::1") = Some a /\ fam a = V6 /\ mem 37 (tx "fe80::1") = false.
+Proof. eexists. repeat split; vm_compute; reflexivity. Qed.
